@@ -1,7 +1,9 @@
 (* Facts about the FIPS-197 spec itself: the standard's example vectors, the Figure 7 table = the
    defined S-box, length facts, and extensionality in the S-box function. *)
 From Coq Require Import NArith List Arith Bool Lia.
-From LCP Require Import Base.Sweep Gen.Repo_aes Crypto.AesSpec.
+From LCP Require Import Base.Sweep.
+From LCP Require Import Gen.Repo_aes.
+From LCP Require Import Crypto.AesSpec.
 Import ListNotations.
 Local Open Scope N_scope.
 
